@@ -130,7 +130,13 @@ pub fn features(name: &str, wasm: &[u8], outb: &[u8], out: &mut Vec<Json>) {
     for (n, f) in flags.iter() { let mut s = full; s.remove(*f); sets.push((format!("all but {}", n), s)); }
     let mut mvp = WasmFeatures::empty(); mvp.insert(WasmFeatures::FLOATS); sets.push(("MVP".into(), mvp)); mvp.insert(WasmFeatures::MUTABLE_GLOBAL); sets.push(("MVP + mutable-global".into(), mvp));
     let mut s2 = mvp; s2.insert(WasmFeatures::SIGN_EXTENSION); s2.insert(WasmFeatures::SATURATING_FLOAT_TO_INT); s2.insert(WasmFeatures::MULTI_VALUE); sets.push(("MVP + mutable-global + sign-ext + sat-float + multi-value".into(), s2));
-    // strip custom sections of the output that need no feature (irrelevant to validation anyway)
+    // encodings (wasmparser 0.214 accepts the newer element encodings under every feature set, so these are compared directly):
+    // a plain round trip keeps each element segment's encoding or moves it to the older one for table 0; no data-count section appears from nothing
+    if let (Ok(a), Ok(b)) = (amod::decode(wasm), amod::decode(outb)) {
+        if a.elem_flags.len() == b.elem_flags.len() { for (k, (fa, fb)) in a.elem_flags.iter().zip(&b.elem_flags).enumerate() { let ok = fa == fb || (*fa == 2 && *fb == 0) || (*fa == 6 && *fb == 4);
+            if !ok { out.push(v("feature-escalation:element-encoding", "C20", format!("{}: element segment {} is encoded with flag {} in the input and flag {} in the output", name, k, fa, fb), wasm, crate::c03::hex(outb), String::new())); } } }
+        if a.data_count.is_none() && b.data_count.is_some() && !a.data.iter().any(|d| matches!(d.kind, ADataKind::Passive)) && amod::validate(wasm, { let mut s = full; s.remove(WasmFeatures::BULK_MEMORY); s }).is_ok() { out.push(v("feature-escalation:data-count", "C20", format!("{}: a data-count section appears in the output of a module without passive data segments, memory.init or data.drop", name), wasm, crate::c03::hex(outb), String::new())); }
+    }
     for (label, s) in sets {
         if amod::validate(wasm, s).is_ok() { if let Err(e) = amod::validate(outb, s) { out.push(v(&format!("feature-escalation:{}", label), "C20", format!("{}: the input validates under [{}] but the output does not: {}", name, label, e), wasm, crate::c03::hex(outb), String::new())); } }
     }
@@ -162,15 +168,26 @@ pub fn index_maps(name: &str, wasm: &[u8], obs: &Observed, out: &mut Vec<Json>) 
         if Some((g.initial, g.maximum, g.shared, g.memory64)) != want { bad(format!("parse-time memory index {} maps to a memory with other attributes", i)); } } }
     for (i, id) in obs.pm.tables.iter().enumerate() { if let Some(g) = m.tables.iter().find(|g| g.id().index() == *id) { let ni = n_imp(a, 1); let want = if i < ni { a.imports.iter().filter_map(|x| if let AImportKind::Table(g) = &x.2 { Some((g.initial, g.maximum, g.table64)) } else { None }).nth(i) } else { a.tables.get(i - ni).map(|g| (g.initial, g.maximum, g.table64)) };
         if Some((g.initial, g.maximum, g.table64)) != want { bad(format!("parse-time table index {} maps to a table with other attributes", i)); } } }
+    emit_maps(name, wasm, m, &obs.em, b, out);
+}
+
+/// C19, emit-time half: what sits at the index the map reports, in the emitted binary `b`
+pub fn emit_maps(name: &str, wasm: &[u8], m: &Module, em: &crate::irdump::EmitMaps, b: &AMod, out: &mut Vec<Json>) {
+    let mut bad = |what: String| out.push(v("index-map-wrong", "C19", format!("{}: {}", name, what), wasm, String::new(), String::new()));
+    let wvt = |t: &walrus::ValType| -> wasmparser::ValType { match t { walrus::ValType::I32 => wasmparser::ValType::I32, walrus::ValType::I64 => wasmparser::ValType::I64, walrus::ValType::F32 => wasmparser::ValType::F32, walrus::ValType::F64 => wasmparser::ValType::F64, walrus::ValType::V128 => wasmparser::ValType::V128,
+        walrus::ValType::Ref(walrus::RefType::Externref) => wasmparser::ValType::Ref(wasmparser::RefType::EXTERNREF), _ => wasmparser::ValType::Ref(wasmparser::RefType::FUNCREF) } };
     // emit-time: what sits at the reported index in the emitted binary
-    for f in m.funcs.iter() { if let Some(ix) = obs.em.funcs.get(&f.id().index()) { let t = m.types.get(f.ty()); let got = (t.params().iter().map(wvt).collect::<Vec<_>>(), t.results().iter().map(wvt).collect::<Vec<_>>()); if Some(got) != func_sig(b, *ix) { bad(format!("emit-time index {} of function id {} holds a function with another signature", ix, f.id().index())); }
+    for f in m.funcs.iter() { if let Some(ix) = em.funcs.get(&f.id().index()) { let t = m.types.get(f.ty()); let got = (t.params().iter().map(wvt).collect::<Vec<_>>(), t.results().iter().map(wvt).collect::<Vec<_>>()); if Some(got) != func_sig(b, *ix) { bad(format!("emit-time index {} of function id {} holds a function with another signature", ix, f.id().index())); }
         let is_imp = matches!(f.kind, FunctionKind::Import(_)); if is_imp != ((*ix as usize) < n_imp(b, 0)) { bad(format!("emit-time index {} of function id {} is on the wrong side of the import boundary", ix, f.id().index())); } } else { bad(format!("function id {} has no emit-time index", f.id().index())); } }
-    for d in m.data.iter() { match obs.em.data.get(&d.id().index()) { Some(ix) => if b.data.get(*ix as usize).map(|x| &x.bytes) != Some(&d.value) { bad(format!("emit-time index {} of data id {} holds another payload", ix, d.id().index())); }, None => bad(format!("data id {} has no emit-time index", d.id().index())) } }
-    for g in m.globals.iter() { match obs.em.globals.get(&g.id().index()) { Some(ix) => { let ni = n_imp(b, 3); let got = if (*ix as usize) < ni { b.imports.iter().filter_map(|x| if let AImportKind::Global(g) = &x.2 { Some((g.ty, g.mutable)) } else { None }).nth(*ix as usize) } else { b.globals.get(*ix as usize - ni).map(|g| (g.ty, g.mutable)) }; if got != Some((wvt(&g.ty), g.mutable)) { bad(format!("emit-time index {} of global id {} holds a global of another type", ix, g.id().index())); } } None => bad(format!("global id {} has no emit-time index", g.id().index())) } }
-    for g in m.memories.iter() { match obs.em.memories.get(&g.id().index()) { Some(ix) => { let ni = n_imp(b, 2); let got = if (*ix as usize) < ni { b.imports.iter().filter_map(|x| if let AImportKind::Mem(g) = &x.2 { Some((g.initial, g.maximum, g.shared)) } else { None }).nth(*ix as usize) } else { b.mems.get(*ix as usize - ni).map(|g| (g.initial, g.maximum, g.shared)) }; if got != Some((g.initial, g.maximum, g.shared)) { bad(format!("emit-time index {} of memory id {} holds another memory", ix, g.id().index())); } } None => bad(format!("memory id {} has no emit-time index", g.id().index())) } }
-    for g in m.tables.iter() { match obs.em.tables.get(&g.id().index()) { Some(ix) => { let ni = n_imp(b, 1); let got = if (*ix as usize) < ni { b.imports.iter().filter_map(|x| if let AImportKind::Table(g) = &x.2 { Some((g.initial, g.maximum)) } else { None }).nth(*ix as usize) } else { b.tables.get(*ix as usize - ni).map(|g| (g.initial, g.maximum)) }; if got != Some((g.initial, g.maximum)) { bad(format!("emit-time index {} of table id {} holds another table", ix, g.id().index())); } } None => bad(format!("table id {} has no emit-time index", g.id().index())) } }
-    for t in m.types.iter().filter(|t| !t.verif_is_for_function_entry()) { match obs.em.types.get(&t.id().index()) { Some(ix) => { let got = (t.params().iter().map(wvt).collect::<Vec<_>>(), t.results().iter().map(wvt).collect::<Vec<_>>()); if b.types.get(*ix as usize) != Some(&got) { bad(format!("emit-time index {} of type id {} holds another signature", ix, t.id().index())); } } None => bad(format!("type id {} has no emit-time index", t.id().index())) } }
-    for e in m.elements.iter() { if obs.em.elements.get(&e.id().index()).map(|ix| (*ix as usize) < b.elems.len()) != Some(true) { bad(format!("element id {} has no valid emit-time index", e.id().index())); } }
+    for d in m.data.iter() { match em.data.get(&d.id().index()) { Some(ix) => if b.data.get(*ix as usize).map(|x| &x.bytes) != Some(&d.value) { bad(format!("emit-time index {} of data id {} holds another payload", ix, d.id().index())); }, None => bad(format!("data id {} has no emit-time index", d.id().index())) } }
+    for g in m.globals.iter() { match em.globals.get(&g.id().index()) { Some(ix) => { let ni = n_imp(b, 3); let got = if (*ix as usize) < ni { b.imports.iter().filter_map(|x| if let AImportKind::Global(g) = &x.2 { Some((g.ty, g.mutable)) } else { None }).nth(*ix as usize) } else { b.globals.get(*ix as usize - ni).map(|g| (g.ty, g.mutable)) }; if got != Some((wvt(&g.ty), g.mutable)) { bad(format!("emit-time index {} of global id {} holds a global of another type", ix, g.id().index())); } } None => bad(format!("global id {} has no emit-time index", g.id().index())) } }
+    for g in m.memories.iter() { match em.memories.get(&g.id().index()) { Some(ix) => { let ni = n_imp(b, 2); let got = if (*ix as usize) < ni { b.imports.iter().filter_map(|x| if let AImportKind::Mem(g) = &x.2 { Some((g.initial, g.maximum, g.shared)) } else { None }).nth(*ix as usize) } else { b.mems.get(*ix as usize - ni).map(|g| (g.initial, g.maximum, g.shared)) }; if got != Some((g.initial, g.maximum, g.shared)) { bad(format!("emit-time index {} of memory id {} holds another memory", ix, g.id().index())); } } None => bad(format!("memory id {} has no emit-time index", g.id().index())) } }
+    for g in m.tables.iter() { match em.tables.get(&g.id().index()) { Some(ix) => { let ni = n_imp(b, 1); let got = if (*ix as usize) < ni { b.imports.iter().filter_map(|x| if let AImportKind::Table(g) = &x.2 { Some((g.initial, g.maximum)) } else { None }).nth(*ix as usize) } else { b.tables.get(*ix as usize - ni).map(|g| (g.initial, g.maximum)) }; if got != Some((g.initial, g.maximum)) { bad(format!("emit-time index {} of table id {} holds another table", ix, g.id().index())); } } None => bad(format!("table id {} has no emit-time index", g.id().index())) } }
+    for t in m.types.iter().filter(|t| !t.verif_is_for_function_entry()) { match em.types.get(&t.id().index()) { Some(ix) => { let got = (t.params().iter().map(wvt).collect::<Vec<_>>(), t.results().iter().map(wvt).collect::<Vec<_>>()); if b.types.get(*ix as usize) != Some(&got) { bad(format!("emit-time index {} of type id {} holds another signature", ix, t.id().index())); } } None => bad(format!("type id {} has no emit-time index", t.id().index())) } }
+    for e in m.elements.iter() { match em.elements.get(&e.id().index()).and_then(|ix| b.elems.get(*ix as usize).map(|x| (*ix, x))) { None => bad(format!("element id {} has no valid emit-time index", e.id().index())),
+        Some((ix, x)) => { let kind_ok = match (&e.kind, &x.kind) { (walrus::ElementKind::Passive, AElemKind::Passive) | (walrus::ElementKind::Declared, AElemKind::Declared) | (walrus::ElementKind::Active { .. }, AElemKind::Active { .. }) => true, _ => false };
+            let n_ok = match (&e.items, &x.items) { (walrus::ElementItems::Functions(f), AElemItems::Funcs(g)) => f.len() == g.len() && f.iter().zip(g).all(|(id, j)| em.funcs.get(&id.index()) == Some(j)), (walrus::ElementItems::Expressions(_, f), AElemItems::Exprs(_, g)) => f.len() == g.len(), _ => false };
+            if !kind_ok || !n_ok { bad(format!("emit-time index {} of element id {} holds another segment", ix, e.id().index())); } } } }
 }
 
 /// C13: debug names stay attached to the same entities.
@@ -246,14 +263,36 @@ pub fn reachable(a: &AMod) -> (BTreeSet<u32>, BTreeSet<u32>, BTreeSet<u32>, BTre
     (f, t, m, g, d, e)
 }
 
+/// For an "undeclared function reference" after GC: is it explained by the recorded finding, i.e. does the input
+/// contain a `ref.func f` in reachable live code such that every element segment / global initialiser that
+/// declares f is unreachable from the roots (so the pass legitimately drops it) and f is not exported?
+/// Computed on the INPUT with the independent reachability analysis.
+pub fn orphaned_reffuncs(a: &AMod) -> Vec<u32> {
+    let (f, _t, _m, g, _d, e) = reachable(a);
+    let nf = n_imp(a, 0) as u32; let ng = n_imp(a, 3) as u32;
+    let mut refd: BTreeSet<u32> = BTreeSet::new();
+    for i in &f { if *i >= nf { if let Some(b) = a.code.get((*i - nf) as usize) { let live = crate::body::live_mask(&b.ops); for (k, o) in b.ops.iter().enumerate() { if !live[k] { continue; } if let Some(t) = &o.0 { if let Some(p) = t.find("W_RefFunc ") { if let Ok(x) = t[p + 10..].split(|c: char| !c.is_ascii_digit()).next().unwrap_or("").parse::<u32>() { refd.insert(x); } } } } } } }
+    let const_decl = |c: &Vec<String>, x: u32| c.iter().any(|t| t.strip_prefix("W_RefFunc ").and_then(|y| y.parse::<u32>().ok()) == Some(x));
+    refd.into_iter().filter(|x| {
+        let exported = a.exports.iter().any(|ex| ex.1 == 0 && ex.2 == *x);
+        let by_elem = a.elems.iter().enumerate().any(|(j, el)| e.contains(&(j as u32)) && match &el.items { AElemItems::Funcs(fs) => fs.contains(x), AElemItems::Exprs(_, es) => es.iter().any(|c| const_decl(c, *x)) });
+        let by_global = a.globals.iter().enumerate().any(|(j, gl)| g.contains(&(j as u32 + ng)) && gl.init.as_ref().map(|c| const_decl(c, *x)).unwrap_or(false));
+        !exported && !by_elem && !by_global }).collect()
+}
+pub fn undeclared_class(a: &AMod) -> &'static str {
+    if orphaned_reffuncs(a).is_empty() { "gc-output-invalid:undeclared-function-reference:no-declarer-was-unreachable" } else { "gc-output-invalid:undeclared-function-reference:every-declarer-unreachable" }
+}
+
 /// C06 (validity + exports), C07 (precision, idempotence) of the GC pass.
 pub fn gc(name: &str, wasm: &[u8], out: &mut Vec<Json>) {
     let feats = env::walrus_features(false);
     let a = match amod::decode(wasm) { Ok(a) => a, Err(_) => return };
     let r = catch(|| { let mut m = Module::from_buffer(wasm).ok()?; passes::gc::run(&mut m); let o1 = m.emit_wasm(); passes::gc::run(&mut m); let o2 = m.emit_wasm(); Some((o1, o2)) });
     let (o1, o2) = match r { Some(Some(x)) => x, Some(None) => return, None => { out.push(v("gc-panics", "C06 C02", format!("{}: gc + emit panics", name), wasm, String::new(), String::new())); return; } };
-    if let Err(e) = amod::validate(&o1, feats) { let class = if e.contains("undeclared function reference") { "gc-output-invalid:undeclared-function-reference" } else { "gc-output-invalid" };
+    if let Err(e) = amod::validate(&o1, feats) { let class = if e.contains("undeclared function reference") { undeclared_class(&a) } else { "gc-output-invalid" };
         out.push(v(class, "C06 C02", format!("{}: module is invalid after gc: {}", name, e), wasm, crate::c03::hex(&o1), String::new())); }
+    // the emit-time maps seen by a custom section when the module is emitted after the pass (C19)
+    if let Some(Some(Ok(oo))) = catch(|| { let mut m = Module::from_buffer(wasm).ok()?; passes::gc::run(&mut m); Some(crate::body::observe_module(m)) }) { emit_maps(&format!("{} (after gc)", name), wasm, &oo.module, &oo.em, &oo.aout, out); }
     let b = match amod::decode(&o1) { Ok(b) => b, Err(_) => return };
     if a.exports.iter().map(|e| (&e.0, e.1)).collect::<Vec<_>>() != b.exports.iter().map(|e| (&e.0, e.1)).collect::<Vec<_>>() { out.push(v("gc-changes-exports", "C06", format!("{}: exports differ after gc", name), wasm, format!("{:?}", b.exports), format!("{:?}", a.exports))); }
     // idempotence: a second run changes nothing (customs are compared by C12)
